@@ -156,7 +156,7 @@ pub fn local_addr_of(remote: u8) -> SocketAddr {
 /// peers 0..=2 are unrelated hosts; 3..=5 are twins of them as far as a lossy comparison goes
 /// (IPv4-mapped spelling of peer 0, peer 2 on another scope, peer 0 on the next port); 6 and 7 are a
 /// link-local IPv6 host named without a zone and on zone 5
-pub const N_PEERS: u8 = 8;
+pub const N_PEERS: u8 = 14;
 
 pub fn peer(i: u8) -> SocketAddr {
     match i % N_PEERS {
@@ -167,7 +167,16 @@ pub fn peer(i: u8) -> SocketAddr {
         4 => SocketAddr::V6(std::net::SocketAddrV6::new("2001:db8::7".parse().unwrap(), 3478, 0, 3)),
         5 => "192.0.2.1:3479".parse().unwrap(),
         6 => "[fe80::2]:3478".parse().unwrap(),
-        _ => SocketAddr::V6(std::net::SocketAddrV6::new("fe80::2".parse().unwrap(), 3478, 0, 5)),
+        7 => SocketAddr::V6(std::net::SocketAddrV6::new("fe80::2".parse().unwrap(), 3478, 0, 5)),
+        // socket addresses at the edges of the type: port 0, the unspecified addresses, broadcast with
+        // the highest port, loopback, multicast. The agent is handed `from` / `to` as values; nothing
+        // in its contract excludes any of them
+        8 => "192.0.2.9:0".parse().unwrap(),
+        9 => "0.0.0.0:3478".parse().unwrap(),
+        10 => "[::]:3478".parse().unwrap(),
+        11 => "255.255.255.255:65535".parse().unwrap(),
+        12 => "127.0.0.1:3478".parse().unwrap(),
+        _ => "[ff02::1]:1".parse().unwrap(),
     }
 }
 
@@ -427,9 +436,16 @@ fn with_request<R>(id: u128, class: u8, seal: u8, payload: u16, f: impl FnOnce(M
     if payload % 4 == 1 {
         b.add_attribute(&user).unwrap();
     }
-    let raw_val = vec![payload; payload as usize % 9];
+    // a raw attribute of a type the registry assigns to another specification (each entry of the
+    // table once with the length its definition gives, then with other lengths)
+    let mut raw_val = vec![payload; payload as usize % 9];
     if payload >= 128 {
-        b.add_raw_attribute(RawAttribute::new(AttributeType::new(0xC057), &raw_val)).unwrap();
+        let k = payload as usize - 128;
+        let (ty, natural) = crate::gen::REGISTERED_OTHER[k % crate::gen::REGISTERED_OTHER.len()];
+        if k < crate::gen::REGISTERED_OTHER.len() && natural > 0 {
+            raw_val = (0..natural as u8).map(|j| j.wrapping_add(payload % 3)).collect();
+        }
+        b.add_raw_attribute(RawAttribute::new(AttributeType::new(ty), &raw_val)).unwrap();
     }
     let mut many_vals: Vec<Vec<u8>> = (0..many).map(|i| vec![i as u8 ^ payload; (i + payload as usize) % 6]).collect();
     if big {
@@ -1933,9 +1949,45 @@ pub fn op_strategy(p: Profile) -> BoxedStrategy<Op> {
     }
 }
 
+/// A crowded agent: `n` further requests (ids 16.., outside the pool the other operations draw from)
+/// sent at the start of a history, on a mix of schedules: the defaults, short ones that run out
+/// while the history goes on, one-shot ones. Everything the history does then happens next to 60 to
+/// 240 outstanding transactions, each of which must still be serviced and ended exactly once, on time.
+pub fn crowd_ops(n: u8, flavour: u8) -> Vec<Op> {
+    (0..n.min(239))
+        .map(|i| {
+            let id = 16 + i;
+            let (dest, payload) = (i % 3, (i % 100) as u16);
+            match (flavour as u16 + i as u16) % 4 {
+                0 => Op::Send { id, class: 0, seal: 0, dest, payload },
+                1 => Op::SendConfigured { id, seal: 0, dest, payload, rto_ms: 20 + 3 * i as u32, retransmits: i % 3, last_ms: 40 },
+                2 => Op::SendConfigured { id, seal: 0, dest, payload, rto_ms: 500, retransmits: 6, last_ms: 8_000 },
+                _ => Op::SendConfigured { id, seal: 0, dest, payload, rto_ms: 1 + (i as u32 % 7) * 30, retransmits: 0, last_ms: 1 + i as u32 % 5 },
+            }
+        })
+        .collect()
+}
+
 pub fn history_strategy(p: Profile, max_ops: usize) -> BoxedStrategy<History> {
-    (prop_oneof![3 => Just(false), 1 => Just(true)], vec(op_strategy(p), 0..=max_ops), prop_oneof![3 => Just(0u8), 1 => 1u8..=N_PEERS], prop_oneof![5 => Just(0u8), 1 => 1u8..4], prop_oneof![3 => Just(0u8), 1 => Just(0x40u8)], 0u8..8)
-        .prop_map(|(tcp, ops, remote, local, past, tick)| History { tcp, ops, remote: remote | (local << 4) | past, tick })
+    let crowd = prop_oneof![
+        100 => Just(0u8),
+        1 => proptest::sample::select(vec![63u8, 64, 65, 66, 100, 129, 200]),
+    ];
+    (
+        prop_oneof![3 => Just(false), 1 => Just(true)],
+        vec(op_strategy(p), 0..=max_ops),
+        prop_oneof![3 => Just(0u8), 1 => 1u8..=N_PEERS],
+        prop_oneof![5 => Just(0u8), 1 => 1u8..4],
+        prop_oneof![3 => Just(0u8), 1 => Just(0x40u8)],
+        0u8..8,
+        crowd,
+        any::<u8>(),
+    )
+        .prop_map(|(tcp, ops, remote, local, past, tick, crowd, flavour)| {
+            let mut all = crowd_ops(crowd, flavour);
+            all.extend(ops);
+            History { tcp, ops: all, remote: remote | (local << 4) | past, tick }
+        })
         .boxed()
 }
 
@@ -2014,7 +2066,8 @@ pub fn plain_oracles(h: &History, origin: Instant, tag: &str) -> Result<(), (Str
                         let mut b = [0u8; 16];
                         b[4..].copy_from_slice(&d[8..20]);
                         let id = u128::from_be_bytes(b);
-                        if (0..N_IDS).map(pool_id).any(|p| p == id) {
+                        // any id a history can name: the pool and its aliases, and the ids of a crowd
+                        if (0..=255u8).map(pool_id).any(|p| p == id) {
                             pool_id_of = Some(id);
                         }
                     }
@@ -2102,11 +2155,11 @@ pub fn plain_oracles(h: &History, origin: Instant, tag: &str) -> Result<(), (Str
                     Adv::Far => now + 120_000 * k,
                 };
             }
-            Op::Poll | Op::Drain | Op::PollVia { .. } => match drain(&mut agent, &mut env!(), at(now), step, 64)? {
+            Op::Poll | Op::Drain | Op::PollVia { .. } => match { let cap = 64 + 16 * live.len(); drain(&mut agent, &mut env!(), at(now), step, cap)? } {
                 Some(w) => last_wait = w.checked_duration_since(origin).map(|d| (d.as_nanos() / tick_ns as u128) as u64),
                 None => {
                     if c05 {
-                        return fail("c05-endless-events", step, "64 polls at one instant all produced events".into());
+                        return fail("c05-endless-events", step, format!("{} polls at one instant all produced events ({} transactions live)", 64 + 16 * live.len(), live.len()));
                     }
                     return Ok(());
                 }
@@ -2198,14 +2251,15 @@ pub fn plain_oracles(h: &History, origin: Instant, tag: &str) -> Result<(), (Str
         if live.is_empty() {
             return Ok(());
         }
-        match drain(&mut agent, &mut env!(), at(now), h.ops.len(), 64)? {
+        let cap = 64 + 16 * live.len();
+        match drain(&mut agent, &mut env!(), at(now), h.ops.len(), cap)? {
             Some(w) => {
                 let t = w.checked_duration_since(origin).map(|d| (d.as_nanos() / tick_ns as u128) as u64).unwrap_or(0);
                 now = if t > now { t } else { now + 1 };
             }
             None => {
                 if c05 {
-                    return fail("c05-endless-events", h.ops.len(), "64 polls at one instant all produced events".into());
+                    return fail("c05-endless-events", h.ops.len(), format!("{} polls at one instant all produced events ({} transactions live)", 64 + 16 * live.len(), live.len()));
                 }
                 return Ok(());
             }
